@@ -569,17 +569,25 @@ func (d *daemon) ServeHTTP(w http.ResponseWriter, r *http.Request) {
 		d.mu.Unlock()
 		fmt.Fprintf(w, "%s\n", eff.body)
 	case "serr":
-		// what go-ipfs does when the pin fails after the first progress message: the error
-		// travels inside the 200 stream (and in the X-Stream-Error trailer); nothing is pinned
+		// what go-ipfs does when the pin fails after the first progress message: status 200 is
+		// already out, the error travels inside the stream as an object and/or in the
+		// X-Stream-Error trailer; nothing is pinned. Three forms: object only, trailer only, both.
+		form := wire % 3
 		w.Header().Set("Content-Type", "application/json")
-		w.Header().Set("Trailer", "X-Stream-Error")
+		if form != 0 {
+			w.Header().Set("Trailer", "X-Stream-Error")
+		}
 		w.WriteHeader(200)
 		flush(w)
-		for n := 1; n <= 1+wire%2; n++ {
+		for n := 1; n <= 1+(wire/3)%2; n++ {
 			progress(n)
 		}
-		fmt.Fprintf(w, "%s\n", ipfsErrBody("pin: merkledag: not found"))
-		w.Header().Set("X-Stream-Error", "pin: merkledag: not found")
+		if form != 1 {
+			fmt.Fprintf(w, "%s\n", ipfsErrBody("pin: merkledag: not found"))
+		}
+		if form != 0 {
+			w.Header().Set("X-Stream-Error", "pin: merkledag: not found")
+		}
 	case "b200":
 		w.WriteHeader(200)
 		bodies := []string{"this is not json", "<html>ok</html>", "{\"Pins\":["}
